@@ -279,6 +279,11 @@ def obligations(tier, seed):
                     pre.append("(c0 != 78) | (c1 != 79) | (c2 != 84) | (c3 != 32)")      # 'NOT ' + '(..)' looks like an expression
                 if part and name == "xstring":
                     pre.append("v == 0")
+                    # a string that is (in any letter case) one of the keyword's enumerated words *is* an enumerated value and is
+                    # covered by the enum group; exclude it here
+                    for w in sorted({sl["word"] for sl in S.simple_slots() if sl["type"] == t and sl["key"] == keys[0] and sl["kind"] == "enum"}):
+                        if len(w) == L and L > 0:
+                            pre.append(" | ".join(f"((c{i} != {ord(ch)}) & (c{i} != {ord(ch.upper())}))" for i, ch in enumerate(w)))
                     if quick and L == 3:
                         continue                      # enum-bearing keyword: lower-casing a symbolic string is costly; quick uses L=2
                 variants.append((f"L{L}", BASE + cs, conj(pre), STRING.format(S=chr_expr("c", L))))
